@@ -12,7 +12,7 @@ use numbat::Context;
 use serde_json::{Value as J, json};
 
 const POWERS: [&str; 7] = ["2", "3", "(-1)", "(1/2)", "(1/3)", "(1/5)", "(2/3)"];
-pub const ARGS: [&str; 10] = ["2", "3 m", "4 m^2", "5 s", "true", "0", "6 m/s", "7 kg", "8 / s", "9 m^15"];
+pub const ARGS: [&str; 10] = ["2", "3 m", "true", "5 s", "0", "4 m^2", "6 m/s", "7 kg", "8 / s", "9 m^15"];
 
 #[derive(Clone)]
 pub struct Body {
@@ -61,7 +61,13 @@ fn binary(a: &Body, b: &Body) -> Vec<Body> {
 }
 
 fn cond(l: &Body, r: &Body, a: &Body, b: &Body) -> Body {
-    Body { text: format!("if {} > {} then {} else {}", p(l), p(r), p(a), p(b)), size: l.size + r.size + a.size + b.size + 1, leaf: false }
+    cond_op(">", l, r, a, b)
+}
+
+/// `==` / `!=` do not force a dimension type on their operands (a parameter used only there stays
+/// an unbounded type parameter in the printed signature)
+fn cond_op(op: &str, l: &Body, r: &Body, a: &Body, b: &Body) -> Body {
+    Body { text: format!("if {} {op} {} then {} else {}", p(l), p(r), p(a), p(b)), size: l.size + r.size + a.size + b.size + 1, leaf: false }
 }
 
 /// all bodies with at most `n` operator nodes (n <= 2 complete; n == 3: the families listed in the rule)
@@ -75,6 +81,23 @@ pub fn bodies(params: &[&str], thorough: bool) -> Vec<Body> {
             for c in &l0 {
                 for d in &l0 {
                     s1.push(cond(a, b, c, d));
+                }
+            }
+        }
+    }
+    // equality conditions: every one-node conditional, and two-node ones with the nested term in a branch
+    let mut seq: Vec<Body> = vec![];
+    for op in ["==", "!="] {
+        for a in &l0 {
+            for b in &l0 {
+                for c in &l0 {
+                    for d in &l0 {
+                        seq.push(cond_op(op, a, b, c, d));
+                    }
+                    for t in &s1 {
+                        seq.push(cond_op(op, a, b, t, c));
+                        seq.push(cond_op(op, a, b, c, t));
+                    }
                 }
             }
         }
@@ -128,6 +151,7 @@ pub fn bodies(params: &[&str], thorough: bool) -> Vec<Body> {
     all.extend(s1);
     all.extend(s2);
     all.extend(s3);
+    all.extend(seq);
     let mut seen = std::collections::HashSet::new();
     all.retain(|b| seen.insert(b.text.clone()));
     all
@@ -221,7 +245,7 @@ pub fn judge(base: &Context, pair: &mut Pair, params: &[&str], body: &str, nargs
 
 fn judge_in(pair: &mut Pair, params: &[&str], body: &str, nargs: usize) -> Result<&'static str, String> {
     // quick tier: one value fewer for two-parameter bodies
-    let alphabet = &ARGS[..if nargs < ARGS.len() && params.len() > 1 { nargs - 1 } else { nargs }];
+    let alphabet = &ARGS[..if nargs < ARGS.len() && params.len() > 1 { nargs - 2 } else { nargs }];
     let def = format!("fn fu({}) = {body}", params.join(", "));
     let Pair { c1, c2, .. } = pair;
     let r1 = run(c1, &def);
@@ -311,7 +335,7 @@ pub fn check(rep: &mut Report) {
             Ok(v) => {
                 *counts.entry(v).or_default() += 1;
                 if v != "body rejected" {
-                    let c = ((if nargs < ARGS.len() && params.len() > 1 { nargs - 1 } else { nargs }) as u64).pow(params.len() as u32);
+                    let c = ((if nargs < ARGS.len() && params.len() > 1 { nargs - 2 } else { nargs }) as u64).pow(params.len() as u32);
                     calls += c;
                     rep.transitions += c;
                     rep.validated += 1;
@@ -339,7 +363,7 @@ pub fn check(rep: &mut Report) {
     rep.set("verdicts", json!(counts));
     rep.set("calls_compared", json!(calls * 2));
     rep.set("argument_alphabet", json!(&ARGS[..nargs]));
-    rep.rule = "every unannotated body with <= 2 operator nodes over leaves {x, 2} / {x, y, 2} (unary: -, ^e for e in {2,3,-1,1/2,1/3,1/5,2/3}, sqrt, sqr, abs, cbrt; binary: * / + hypot2 mean head; conditionals `if l > r then a else b`), plus every binary operator applied to two one-node operands (thorough: full unary set, conditionals over them, and every unary of a two-node body); for each accepted body: printed signature + original body re-declared in a second clone, signatures compared, and every argument tuple from the value alphabet (quick 6: Scalar, Length, Length², Time, Bool, the polymorphic 0 — the first 5 for two-parameter bodies; thorough 10: + Velocity, Mass, 1/Time, Length^15) called on both; non-trivial = accepted bodies (each compared on all call tuples)".into();
+    rep.rule = "every unannotated body with <= 2 operator nodes over leaves {x, 2} / {x, y, 2} (unary: -, ^e for e in {2,3,-1,1/2,1/3,1/5,2/3}, sqrt, sqr, abs, cbrt; binary: * / + hypot2 mean head; conditionals `if l > r then a else b`; plus `==` / `!=` conditions for every one-node conditional and for two-node ones with the nested term in a branch), plus every binary operator applied to two one-node operands (thorough: full unary set, conditionals over them, and every unary of a two-node body); for each accepted body: printed signature + original body re-declared in a second clone, signatures compared, and every argument tuple from the value alphabet (quick 6: Scalar, Length, Bool, Time, the polymorphic 0, Length² — the first 4 for two-parameter bodies; thorough 10: + Velocity, Mass, 1/Time, Length^15) called on both; non-trivial = accepted bodies (each compared on all call tuples)".into();
     rep.assumptions = vec![
         "the printed signature is the text before ` = ` of Statement::pretty_print of the accepted definition".into(),
         "the session loads only core::functions, core::lists, math::statistics, math::geometry and units::si; both definitions use the same function name in two copies of it that evolve in lockstep (refreshed every 32 bodies), so results and error texts are compared literally; exponent spelling (A² vs A^2) is not compared".into(),
